@@ -1,5 +1,5 @@
 (* C13 — Compression and vector-to-MPS conversion obey their truncation error bounds.
-   Only statements, closed by [exact]/[apply]; proofs live in Proofs/Compress{Partial,SVD,Local,Sweep,Top,Error,Bool,Right}.v and
+   Only statements, closed by [exact]/[apply]; proofs live in Proofs/Compress{Partial,SVD,Local,Sweep,Top,Error,Bool,Right,Schmidt,SchmidtRight,SchmidtBool}.v and
    Proofs/Orth*.v.
    Model: Model/Orthonormalize.v [mps_compress] (mirror of pytenet/mps.py MPS.compress, local_orthonormalize_left_svd /
    right_svd) on top of Model/BondOps.v [block_svd], [retained]; numpy.linalg.qr / svd, the unstable argsort and abs of a
@@ -23,9 +23,16 @@
        (c) 1 - L*tol <= scale^2 <= 1                                                         PROVED both modes (C13_compress_left_error / _right_error)
        (d) psi' well formed, block sparse, every site a left isometry, <psi'|psi'> = 1,
            new bond dimensions <= those after the preliminary orthonormalisation <= original  PROVED both modes (isometry = left for 'left', right for 'right')
-       (e) the first truncated bond keeps exactly the Schmidt values [retained] prescribes   NOT PROVED as a theorem about mps_compress
-           (C12_block_svd_spec gives s = S[retained pick S tol] for each local split; that the first call's S are the Schmidt
-            values of the cut follows from the right-canonical form; the connecting lemma is not written)
+       (e) the first truncated bond keeps exactly the Schmidt values [retained] prescribes   PROVED both modes
+           (C13_first_bond_schmidt_left / _right at the end of this file, Proofs/CompressSchmidt*.v: the first call of the
+            sweep is block_svd on the matrix M of the first (last) site of the canonical normalised state psi1; its block
+            singular values S satisfy rho = Uf diag(S^2) Uf^H, rho Uf = Uf diag(S^2), Uf^H Uf = I, sum S^2 = tr rho = 1 for
+            the reduced density matrix rho of that site - the Schmidt values across the cut, stated as an eigen-decomposition
+            with explicit eigenvectors instead of through a spectral theorem; the kept values are S[retained pick S tol],
+            the new bond dimension is the number of kept values, with the properties of C12_retained_spec.
+            Earlier status, kept for the record: NOT PROVED as a theorem about mps_compress - C12_block_svd_spec gives
+            s = S[retained pick S tol] for each local split; that the first call's S are the Schmidt values of the cut
+            follows from the right-canonical form; the connecting lemma was not written.)
        (f) tol = 0  ==>  scale = 1 and nrm * scale * amp psi' w = amp psi w for every word w   PROVED both modes
        (g) <psi'|psi> = nrm*scale and || nrm*scale*psi' - psi ||^2 = nrm^2 (1 - scale^2) <= nrm^2 * L * tol
                                                                                              PROVED both modes (C13_compress_*_spec / _error)
@@ -39,6 +46,7 @@ From Coq Require Import ZArith QArith Qcanon List Bool Lia.
 From PT Require Import Base.Scalar Base.Field Base.BigSum Base.Mx Model.Tensor Model.BondOps Model.Orthonormalize Model.FromVector.
 From PT Require Import Proofs.BondOpsSpec Proofs.BondOpsRetained Proofs.BondOpsSVD Proofs.OrthDefs Proofs.OrthSweep Proofs.OrthTop Proofs.OrthBool Proofs.CompressPartial.
 From PT Require Import Proofs.CompressLocal Proofs.CompressSweep Proofs.CompressTop Proofs.CompressError Proofs.CompressBool Proofs.CompressRight Proofs.FromVectorBound.
+From PT Require Import Proofs.CompressSchmidt Proofs.CompressSchmidtRight Proofs.CompressSchmidtBool.
 Import ListNotations.
 Open Scope nat_scope.
 
@@ -264,4 +272,221 @@ Example C13_from_vector_nonvacuous :
   match from_vector fvb_svd fvb_srt 2 1 fvb_vec (qq 1 10) with Some p => Nat.eqb (length (m_A p)) 1 | None => false end = true.
 Proof.
   split; [apply (fv_call_ok2b_ok QcF); vm_compute; reflexivity|]. split; vm_compute; reflexivity.
+Qed.
+
+(* ---- (e) the first truncated bond keeps exactly the Schmidt values prescribed by the tolerance rule ------------------------
+   Vocabulary (Proofs/CompressSchmidt.v, mode 'left'; p1 = state after the preliminary right-orthonormalisation):
+     first_mx p1 = site_mx (A[0])  the d x D1 matrix of the first site tensor (D0 = 1, so the row index is the physical index),
+     first_q0 p1 = qnumber_flatten([qd, qD[0]]),  first_q1 p1 = qD[1]        the charge vectors of that split,
+     first_spectrum dsvd p1 = S    all block singular values the oracle returns for the blocks of first_mx p1 (C12),
+     first_kept dsvd pick tol p1 = retained pick S tol                       the index set kept by the tolerance rule,
+     rho1 d As s s' = sum over the words w of sites 1..L-1 of amp As (s :: w) * conj (amp As (s' :: w))
+                                   the reduced density matrix of the first site; rho1_mx d As the same as a d x d matrix,
+     sqlist S = the squares of S.
+   Statement, for every well-formed block-sparse MPS psi (boundary bonds 1, all bonds >= 1; for the zero state psi1 is still a
+   normalised state and nrm = 0), 0 <= tol < 1 and oracles meeting their contracts on the issued calls (hypotheses of
+   C13_compress_left_spec):
+     psi1 is normalised, its sites >= 1 are right isometries and amp psi = nrm * amp psi1 (so psi1 = psi / ||psi|| for psi <> 0);
+     (i)   the first step of the truncation sweep is (A[0], qD[0], qD[1]); it hands (first_mx, first_q0, first_q1) to
+           split_matrix_svd, and these block SVD calls head the list [compress_svd_calls] of the model;
+     (ii)  that split returns (u, s, v, q') with s = S[K], K = first_kept; the new first bond of the result psi' is q' with
+           dimension |K| (and for L >= 2 the first tensor of psi' is u reshaped);
+     (iii) rho1(psi1) = M M^H (the right part collapses by right-isometry), rho1(psi) = nrm^2 rho1(psi1), tr rho1(psi1) = 1,
+           and there is Uf (d x |S|) with Uf^H Uf = I, rho1(psi1) = Uf diag(S^2) Uf^H (entrywise), rho1(psi1) Uf = Uf diag(S^2),
+           u = the columns K of Uf;  S >= 0, sum S^2 = 1, |S| <= min(d, D1):
+           the S^2 are the non-zero eigenvalues of the reduced density matrix with orthonormal eigenvectors the columns of Uf,
+           i.e. S are the Schmidt values of psi / ||psi|| across cut 1 (any block structure, unsorted charges);
+     (iv)  K obeys the tolerance rule of C12_retained_spec on these Schmidt values: strictly increasing indices, non-empty,
+           discarded weight <= tol, every kept value >= every discarded one, discarding any further kept value would exceed
+           tol, tol = 0 keeps exactly the non-zero values. *)
+Theorem C13_first_bond_schmidt_left : forall (F : ofield) dqr dsvd pick cabs (p : mps (Cx F)) (d : nat) (tol : F),
+  1 <= d -> length (m_qd p) = d -> m_A p <> [] -> mps_ok p = true ->
+  length (hd [] (m_qD p)) = 1 -> length (last (m_qD p) []) = 1 ->
+  Forall (fun q => 1 <= length q) (m_qD p) ->
+  fle F (f0 F) tol -> flt F tol (f1 F) ->
+  Forall (qr_call_ok F dqr) (mps_orth_calls dqr false p) ->
+  (forall p1 n1, mps_orthonormalize dqr false p = Some (p1, n1) -> compress_ok dsvd pick tol true p1) ->
+  (forall t, compress_T dqr dsvd pick tol true p = Some t -> abs_ok cabs t) ->
+  exists p1 p' nrm sc,
+    mps_orthonormalize dqr false p = Some (p1, nrm) /\
+    mps_compress dqr dsvd pick cabs tol true p = Some (p', nrm, sc) /\
+    length (m_A p1) = length (m_A p) /\ m_qd p1 = m_qd p /\ length (hd [] (m_qD p1)) = 1 /\
+    norm2 d (m_A p1) = k1 (Cx F) /\ chain_riso (lens (m_qD p1)) (m_A p1) /\
+    fle F (f0 F) nrm /\ norm2 d (m_A p) = cof (fmul F nrm nrm) /\
+    (forall w, length w = length (m_A p) -> letters d w -> amp (m_A p) w = kmul (Cx F) (cof nrm) (amp (m_A p1) w)) /\
+    wf (first_mx p1) /\ nr (first_mx p1) = d /\ nc (first_mx p1) = length (first_q1 p1) /\
+    (forall s b, s < d -> b < length (first_q1 p1) -> get (first_mx p1) s b = get (sel (hd [] (m_A p1)) s) 0 b) /\
+    (exists tl, compress_args dsvd pick tol true p1 = (hd [] (m_A p1), hd [] (m_qD p1), first_q1 p1) :: tl) /\
+    step_mx true (m_qd p1) (hd [] (m_A p1), hd [] (m_qD p1), first_q1 p1) = (first_mx p1, first_q0 p1, first_q1 p1) /\
+    (exists tl, compress_svd_calls dsvd pick tol true p1 = block_svd_calls (first_mx p1) (first_q0 p1) (first_q1 p1) ++ tl) /\
+    (exists u s v q' Uf,
+       block_svd dsvd pick (first_mx p1) (first_q0 p1) (first_q1 p1) tol = Some (u, s, v, q') /\
+       s = map (fun i => nth i (first_spectrum dsvd p1) (f0 F)) (first_kept dsvd pick tol p1) /\
+       length q' = length (first_kept dsvd pick tol p1) /\
+       nth 1 (m_qD p') [] = q' /\
+       (2 <= length (m_A p) -> hd [] (m_A p') = mx_site d 1 u) /\
+       wf Uf /\ nr Uf = d /\ nc Uf = length (first_spectrum dsvd p1) /\
+       mulmx (adjmx Uf) Uf = idmx (length (first_spectrum dsvd p1)) /\
+       mulmx (rho1_mx d (m_A p1)) Uf = scalecols F Uf (sqlist (first_spectrum dsvd p1)) /\
+       (forall t t', t < d -> t' < d -> rho1 d (m_A p1) t t' =
+          sumn (length (first_spectrum dsvd p1)) (fun c =>
+            kmul (Cx F) (kmul (Cx F) (get Uf t c)
+                           (cof (fmul F (nth c (first_spectrum dsvd p1) (f0 F)) (nth c (first_spectrum dsvd p1) (f0 F)))))
+                        (kconj (Cx F) (get Uf t' c)))) /\
+       u = colsel (first_kept dsvd pick tol p1) Uf) /\
+    rho1_mx d (m_A p1) = mulmx (first_mx p1) (adjmx (first_mx p1)) /\
+    (forall t t', t < d -> t' < d -> rho1 d (m_A p) t t' = kmul (Cx F) (cof (fmul F nrm nrm)) (rho1 d (m_A p1) t t')) /\
+    sumn d (fun t => rho1 d (m_A p1) t t) = k1 (Cx F) /\
+    sqsum (first_spectrum dsvd p1) = f1 F /\
+    (forall x, In x (first_spectrum dsvd p1) -> fle F (f0 F) x) /\
+    length (first_spectrum dsvd p1) <= Nat.min d (length (first_q1 p1)) /\
+    Sorted.StronglySorted lt (first_kept dsvd pick tol p1) /\
+    (forall i, In i (first_kept dsvd pick tol p1) -> i < length (first_spectrum dsvd p1)) /\
+    first_kept dsvd pick tol p1 <> [] /\
+    fle F (disc_weight (first_spectrum dsvd p1) (first_kept dsvd pick tol p1)) tol /\
+    (forall i j, In i (first_kept dsvd pick tol p1) -> j < length (first_spectrum dsvd p1) -> ~ In j (first_kept dsvd pick tol p1) ->
+       fle F (nth j (first_spectrum dsvd p1) (f0 F)) (nth i (first_spectrum dsvd p1) (f0 F))) /\
+    (forall m, In m (first_kept dsvd pick tol p1) ->
+       flt F tol (fadd F (disc_weight (first_spectrum dsvd p1) (first_kept dsvd pick tol p1)) (weight (first_spectrum dsvd p1) m))) /\
+    (tol = f0 F -> forall i, i < length (first_spectrum dsvd p1) ->
+       (In i (first_kept dsvd pick tol p1) <-> nth i (first_spectrum dsvd p1) (f0 F) <> f0 F)).
+Proof. intros F dqr dsvd pick cabs p d tol. exact (compress_first_bond_left F dqr dsvd pick cabs p d tol). Qed.
+Print Assumptions C13_first_bond_schmidt_left.
+
+(* mode = 'right': the mirror image (Proofs/CompressSchmidtRight.v).  p1 = state after the preliminary LEFT-orthonormalisation
+   (sites <= L-2 left isometries); the first truncated bond is the LAST one.  last_site p1 = A[L-1],
+   last_mx p1 = A[L-1].transpose((1,0,2)).reshape((D_{L-1}, d)) (column index = physical index, D_L = 1), last_q0 p1 = qD[L-1],
+   last_q1 p1 = qnumber_flatten([-qd, qD[L]]), last_spectrum / last_kept as before, rhoL d As s s' = sum over the words w of
+   sites 0..L-2 of amp As (w ++ [s]) * conj (amp As (w ++ [s'])) the reduced density matrix of the last site.
+   rhoL(psi1) = (M^H M)^T = Vf^T diag(S^2) conj(Vf) with Vf Vf^H = I: the eigenvectors are the ROWS of the full right factor Vf,
+   rhoL(psi1) Vf^T = Vf^T diag(S^2); the kept right factor v = rows K of Vf; the new last bond of psi' has dimension |K|. *)
+Theorem C13_first_bond_schmidt_right : forall (F : ofield) dqr dsvd pick cabs (p : mps (Cx F)) (d : nat) (tol : F),
+  1 <= d -> length (m_qd p) = d -> m_A p <> [] -> mps_ok p = true ->
+  length (hd [] (m_qD p)) = 1 -> length (last (m_qD p) []) = 1 ->
+  Forall (fun q => 1 <= length q) (m_qD p) ->
+  fle F (f0 F) tol -> flt F tol (f1 F) ->
+  Forall (qr_call_ok F dqr) (mps_orth_calls dqr true p) ->
+  (forall p1 n1, mps_orthonormalize dqr true p = Some (p1, n1) -> compress_ok dsvd pick tol false p1) ->
+  (forall t, compress_T dqr dsvd pick tol false p = Some t -> abs_ok cabs t) ->
+  exists p1 p' nrm sc,
+    mps_orthonormalize dqr true p = Some (p1, nrm) /\
+    mps_compress dqr dsvd pick cabs tol false p = Some (p', nrm, sc) /\
+    length (m_A p1) = length (m_A p) /\ m_qd p1 = m_qd p /\ length (last (m_qD p1) []) = 1 /\
+    norm2 d (m_A p1) = k1 (Cx F) /\ chain_liso (lens (m_qD p1)) (m_A p1) /\
+    fle F (f0 F) nrm /\ norm2 d (m_A p) = cof (fmul F nrm nrm) /\
+    (forall w, length w = length (m_A p) -> letters d w -> amp (m_A p) w = kmul (Cx F) (cof nrm) (amp (m_A p1) w)) /\
+    wf (last_mx p1) /\ nr (last_mx p1) = length (last_q0 p1) /\ nc (last_mx p1) = d /\
+    (forall a s, a < length (last_q0 p1) -> s < d -> get (last_mx p1) a s = get (sel (last_site p1) s) a 0) /\
+    (exists tl, compress_args dsvd pick tol false p1 = (last_site p1, hd [] (rev (m_qD p1)), last_q0 p1) :: tl) /\
+    step_mx false (m_qd p1) (last_site p1, hd [] (rev (m_qD p1)), last_q0 p1) = (last_mx p1, last_q0 p1, last_q1 p1) /\
+    (exists tl, compress_svd_calls dsvd pick tol false p1 = block_svd_calls (last_mx p1) (last_q0 p1) (last_q1 p1) ++ tl) /\
+    (exists u s v q' Vf,
+       block_svd dsvd pick (last_mx p1) (last_q0 p1) (last_q1 p1) tol = Some (u, s, v, q') /\
+       s = map (fun i => nth i (last_spectrum dsvd p1) (f0 F)) (last_kept dsvd pick tol p1) /\
+       length q' = length (last_kept dsvd pick tol p1) /\
+       nth 1 (rev (m_qD p')) [] = q' /\
+       (2 <= length (m_A p) -> hd [] (rev (m_A p')) = mx_site_r d 1 v) /\
+       wf Vf /\ nr Vf = length (last_spectrum dsvd p1) /\ nc Vf = d /\
+       mulmx Vf (adjmx Vf) = idmx (length (last_spectrum dsvd p1)) /\
+       mulmx (rhoL_mx d (m_A p1)) (trmx Vf) = scalecols F (trmx Vf) (sqlist (last_spectrum dsvd p1)) /\
+       (forall t t', t < d -> t' < d -> rhoL d (m_A p1) t t' =
+          sumn (length (last_spectrum dsvd p1)) (fun c =>
+            kmul (Cx F) (kmul (Cx F) (get Vf c t)
+                           (cof (fmul F (nth c (last_spectrum dsvd p1) (f0 F)) (nth c (last_spectrum dsvd p1) (f0 F)))))
+                        (kconj (Cx F) (get Vf c t')))) /\
+       v = rowsel (last_kept dsvd pick tol p1) Vf) /\
+    rhoL_mx d (m_A p1) = trmx (mulmx (adjmx (last_mx p1)) (last_mx p1)) /\
+    (forall t t', t < d -> t' < d -> rhoL d (m_A p) t t' = kmul (Cx F) (cof (fmul F nrm nrm)) (rhoL d (m_A p1) t t')) /\
+    sumn d (fun t => rhoL d (m_A p1) t t) = k1 (Cx F) /\
+    sqsum (last_spectrum dsvd p1) = f1 F /\
+    (forall x, In x (last_spectrum dsvd p1) -> fle F (f0 F) x) /\
+    length (last_spectrum dsvd p1) <= Nat.min (length (last_q0 p1)) d /\
+    Sorted.StronglySorted lt (last_kept dsvd pick tol p1) /\
+    (forall i, In i (last_kept dsvd pick tol p1) -> i < length (last_spectrum dsvd p1)) /\
+    last_kept dsvd pick tol p1 <> [] /\
+    fle F (disc_weight (last_spectrum dsvd p1) (last_kept dsvd pick tol p1)) tol /\
+    (forall i j, In i (last_kept dsvd pick tol p1) -> j < length (last_spectrum dsvd p1) -> ~ In j (last_kept dsvd pick tol p1) ->
+       fle F (nth j (last_spectrum dsvd p1) (f0 F)) (nth i (last_spectrum dsvd p1) (f0 F))) /\
+    (forall m, In m (last_kept dsvd pick tol p1) ->
+       flt F tol (fadd F (disc_weight (last_spectrum dsvd p1) (last_kept dsvd pick tol p1)) (weight (last_spectrum dsvd p1) m))) /\
+    (tol = f0 F -> forall i, i < length (last_spectrum dsvd p1) ->
+       (In i (last_kept dsvd pick tol p1) <-> nth i (last_spectrum dsvd p1) (f0 F) <> f0 F)).
+Proof. intros F dqr dsvd pick cabs p d tol. exact (compress_first_bond_right F dqr dsvd pick cabs p d tol). Qed.
+Print Assumptions C13_first_bond_schmidt_right.
+
+(* Non-vacuity with a genuinely truncating instance: L = 2, d = 2, all charges zero, psi = 4 |00> + 3 |11>
+   (A[0][0] = (4 0), A[0][1] = (0 3), A[1] = identity columns), ||psi|| = 5, Schmidt values (4/5, 3/5) across the only cut,
+   weights 16/25 and 9/25, tol = 2/5: the smaller weight 9/25 <= 2/5 is discarded, ONE of the two values is kept, the bond
+   dimension drops from 2 to 1 and scale = 4/5.  QR table: the two calls of the right-orthonormalisation; SVD table: the
+   2 x 2 diagonal matrix diag(4/5, 3/5) = I diag(4/5, 3/5) I and the column (4/5, 0)^T of the second step; argsort of the
+   weights (16/25, 9/25) is [1; 0].  All hypotheses of C13_first_bond_schmidt_left hold, the model's first spectrum is
+   [4/5; 3/5], the kept index set is [0], D1 before = 2, after = 1. *)
+Definition sch_p : mps (Cx QcF) :=
+  mkmps [0; 0]%Z [[0]; [0; 0]; [0]]%Z
+    [ [mc 1 2 [[cq 4 1; cq 0 1]]; mc 1 2 [[cq 0 1; cq 3 1]]];
+      [mc 2 1 [[cq 1 1]; [cq 0 1]]; mc 2 1 [[cq 0 1]; [cq 1 1]]] ].
+Definition sch_I2 : mx (Cx QcF) := mc 2 2 [[cq 1 1; cq 0 1]; [cq 0 1; cq 1 1]].
+Definition sch_qtbl : list (mx (Cx QcF) * (mx (Cx QcF) * mx (Cx QcF))) :=
+  [ (sch_I2, (sch_I2, sch_I2));
+    (mc 4 1 [[cq 4 1]; [cq 0 1]; [cq 0 1]; [cq 3 1]], (mc 4 1 [[cq 4 5]; [cq 0 1]; [cq 0 1]; [cq 3 5]], mc 1 1 [[cq 5 1]])) ].
+Definition sch_stbl : list (mx (Cx QcF) * (mx (Cx QcF) * list QcF * mx (Cx QcF))) :=
+  [ (mc 2 2 [[cq 4 5; cq 0 1]; [cq 0 1; cq 3 5]], (sch_I2, [qq 4 5; qq 3 5], sch_I2));
+    (mc 2 1 [[cq 4 5]; [cq 0 1]], (mc 2 1 [[cq 1 1]; [cq 0 1]], [qq 4 5], mc 1 1 [[cq 1 1]])) ].
+Definition sch_pick : list QcF -> list nat := fun sn => match sn with [_; _] => [1; 0] | _ => [0] end.
+Definition sch_tol : QcF := qq 2 5.
+Definition sch_flist_eqb (a b : list QcF) : bool :=
+  Nat.eqb (length a) (length b) && forallb (fun xy => feqb QcF (fst xy) (snd xy)) (combine a b).
+Example C13_first_bond_nonvacuous :
+  1 <= 2 /\ length (m_qd sch_p) = 2 /\ m_A sch_p <> [] /\ mps_ok sch_p = true /\
+  length (hd [] (m_qD sch_p)) = 1 /\ length (last (m_qD sch_p) []) = 1 /\ Forall (fun q => 1 <= length q) (m_qD sch_p) /\
+  fle QcF (f0 QcF) sch_tol /\ flt QcF sch_tol (f1 QcF) /\
+  Forall (qr_call_ok QcF (qr_oracle sch_qtbl)) (mps_orth_calls (qr_oracle sch_qtbl) false sch_p) /\
+  (forall p1 n1, mps_orthonormalize (qr_oracle sch_qtbl) false sch_p = Some (p1, n1) ->
+     compress_ok (svd_oracle sch_stbl) sch_pick sch_tol true p1) /\
+  (forall t, compress_T (qr_oracle sch_qtbl) (svd_oracle sch_stbl) sch_pick sch_tol true sch_p = Some t -> abs_ok ex_abs t) /\
+  match mps_orthonormalize (qr_oracle sch_qtbl) false sch_p with
+  | Some (p1, _) =>
+      sch_flist_eqb (first_spectrum (svd_oracle sch_stbl) p1) [qq 4 5; qq 3 5] &&
+      natlist_eqb (first_kept (svd_oracle sch_stbl) sch_pick sch_tol p1) [0] &&
+      Nat.eqb (length (first_q1 p1)) 2
+  | None => false end = true /\
+  match mps_compress (qr_oracle sch_qtbl) (svd_oracle sch_stbl) sch_pick ex_abs sch_tol true sch_p with
+  | Some (p', nrm, sc) => feqb QcF nrm (qq 5 1) && feqb QcF sc (qq 4 5) && Nat.eqb (length (nth 1 (m_qD p') [])) 1 && mps_ok p'
+  | None => false end = true.
+Proof.
+  split; [lia|]. split; [reflexivity|]. split; [discriminate|]. split; [vm_compute; reflexivity|].
+  split; [reflexivity|]. split; [reflexivity|]. split; [repeat constructor|].
+  split; [vm_compute; reflexivity|]. split; [vm_compute; reflexivity|].
+  split; [apply qr_call_okb_sound; vm_compute; reflexivity|].
+  split; [apply (compress_hyp_of_bool2 QcF (qr_oracle sch_qtbl) (svd_oracle sch_stbl) sch_pick sch_tol true sch_p); vm_compute; reflexivity|].
+  split; [apply (abs_hyp_of_bool QcF (qr_oracle sch_qtbl) (svd_oracle sch_stbl) sch_pick ex_abs sch_tol true sch_p); vm_compute; reflexivity|].
+  split; vm_compute; reflexivity.
+Qed.
+(* the same state in mode = 'right': left-orthonormalisation factorises diag(4, 3) = I . diag(4, 3) and the column (4,0,0,3)^T;
+   the first truncation step splits the same matrix diag(4/5, 3/5) (now last_mx), the second the row (4/5, 0) *)
+Definition sch_qtbl_r : list (mx (Cx QcF) * (mx (Cx QcF) * mx (Cx QcF))) :=
+  [ (mc 2 2 [[cq 4 1; cq 0 1]; [cq 0 1; cq 3 1]], (sch_I2, mc 2 2 [[cq 4 1; cq 0 1]; [cq 0 1; cq 3 1]]));
+    (mc 4 1 [[cq 4 1]; [cq 0 1]; [cq 0 1]; [cq 3 1]], (mc 4 1 [[cq 4 5]; [cq 0 1]; [cq 0 1]; [cq 3 5]], mc 1 1 [[cq 5 1]])) ].
+Definition sch_stbl_r : list (mx (Cx QcF) * (mx (Cx QcF) * list QcF * mx (Cx QcF))) :=
+  [ (mc 2 2 [[cq 4 5; cq 0 1]; [cq 0 1; cq 3 5]], (sch_I2, [qq 4 5; qq 3 5], sch_I2));
+    (mc 1 2 [[cq 4 5; cq 0 1]], (mc 1 1 [[cq 1 1]], [qq 4 5], mc 1 2 [[cq 1 1; cq 0 1]])) ].
+Example C13_first_bond_right_nonvacuous :
+  Forall (qr_call_ok QcF (qr_oracle sch_qtbl_r)) (mps_orth_calls (qr_oracle sch_qtbl_r) true sch_p) /\
+  (forall p1 n1, mps_orthonormalize (qr_oracle sch_qtbl_r) true sch_p = Some (p1, n1) ->
+     compress_ok (svd_oracle sch_stbl_r) sch_pick sch_tol false p1) /\
+  (forall t, compress_T (qr_oracle sch_qtbl_r) (svd_oracle sch_stbl_r) sch_pick sch_tol false sch_p = Some t -> abs_ok ex_abs t) /\
+  match mps_orthonormalize (qr_oracle sch_qtbl_r) true sch_p with
+  | Some (p1, _) =>
+      sch_flist_eqb (last_spectrum (svd_oracle sch_stbl_r) p1) [qq 4 5; qq 3 5] &&
+      natlist_eqb (last_kept (svd_oracle sch_stbl_r) sch_pick sch_tol p1) [0] &&
+      Nat.eqb (length (last_q0 p1)) 2
+  | None => false end = true /\
+  match mps_compress (qr_oracle sch_qtbl_r) (svd_oracle sch_stbl_r) sch_pick ex_abs sch_tol false sch_p with
+  | Some (p', nrm, sc) => feqb QcF nrm (qq 5 1) && feqb QcF sc (qq 4 5) && Nat.eqb (length (nth 1 (rev (m_qD p')) [])) 1 && mps_ok p'
+  | None => false end = true.
+Proof.
+  split; [apply qr_call_okb_sound; vm_compute; reflexivity|].
+  split; [apply (compress_hyp_of_bool2 QcF (qr_oracle sch_qtbl_r) (svd_oracle sch_stbl_r) sch_pick sch_tol false sch_p); vm_compute; reflexivity|].
+  split; [apply (abs_hyp_of_bool QcF (qr_oracle sch_qtbl_r) (svd_oracle sch_stbl_r) sch_pick ex_abs sch_tol false sch_p); vm_compute; reflexivity|].
+  split; vm_compute; reflexivity.
 Qed.
